@@ -181,7 +181,10 @@ static void addr_callback(void *arg, ares_status_t status, size_t timeouts,
                                             (int)addrlen, AF_INET6, &host);
     }
     end_aquery(aquery, status, host);
-  } else if (status == ARES_EDESTRUCTION || status == ARES_ECANCELLED) {
+  } else if (status == ARES_EDESTRUCTION || status == ARES_ECANCELLED ||
+             status == ARES_ENOMEM) {
+    /* Running out of memory while asking DNS says nothing about the address,
+     * don't go on and answer from a lower-priority source instead. */
     end_aquery(aquery, status, NULL);
   } else {
     next_lookup(aquery);
